@@ -175,6 +175,7 @@ class WorkerPool:
             worker 1 will get chunk 1, etc.
         """
         self.pool_params.order_tasks = order_tasks
+        self._worker_comms.order_tasks = order_tasks
 
     def _start_workers(self) -> None:
         """
